@@ -523,3 +523,70 @@ def w3(ctx):
         ctx.check('Transform/' + key, guarded(pred, what),
                   'Transform rejects a replacement unless %s, before it is spliced in' % what,
                   'Transform splices a replacement in without checking that %s' % what, emps[0].loc)
+
+
+@rule('U1', floor=3, title='a wrong number of leaves is reported: too few inside the leaf arm, too many after the last node')
+def u1(ctx):
+    """Unflatten and traverse / walk consume the leaves through a hand-driven iterator.  In the
+    leaf arm the exhausted outcome of the end test throws ValueError (too few leaves); after the
+    loop over the nodes the NOT exhausted outcome throws ValueError (too many) and the exhausted
+    one returns the result.  The polarity matters: turned round, every exact call fails, or a
+    surplus is silently dropped."""
+    prog = ctx.cxx()
+    from .common import unnegate, thrown_type
+    n = 0
+    for name in ('PyTreeSpec::UnflattenImpl', 'PyTreeSpec::WalkImpl'):
+        for f in [x for x in prog.by_suffix(name) if not x.dependent]:
+            cfg = cfg_of(f)
+            heads = sorted({w for (v, w) in cfg.back_edges})
+            ctx.require(heads, '%s: no loop over the nodes' % inst(f))
+            head = heads[0]
+            loop_nodes = cfg.reachable_from([w for (w, lab) in cfg.succ[head] if lab is True]) \
+                if any(lab is True for (w, lab) in cfg.succ[head]) else set()
+            tests = []
+            for cn in cfg.nodes:
+                if cn.kind != 'cond' or cn.ast is None:
+                    continue
+                base, pos = unnegate(cn.ast)
+                if base is None:
+                    continue
+                op = base.op if base.kind == 'BinaryOperator' else (
+                    base.callee_name()[-2:] if base.kind == 'CXXOperatorCallExpr' and
+                    base.callee_name() in ('operator==', 'operator!=') else None)
+                t = base.text(5)
+                if op not in ('==', '!=') or 'end()' not in t or '__' in t:
+                    continue
+                at_end = ((op == '==') == pos)          # the outcome (label) on which the iterator is exhausted
+                tests.append((cn, at_end))
+            # which tests sit in the loop over the nodes, which after it
+            body = cfg.reachable_from([w for (w, lab) in cfg.succ[head] if lab is not False], None, {head})
+            tail = cfg.reachable_from([w for (w, lab) in cfg.succ[head] if lab is False], None, {head})
+            problems = []
+            if not any(cn.idx in body for cn, _ in tests):
+                problems.append('no end-of-leaves test in the leaf arm (too few leaves are not reported)')
+            if not any(cn.idx in tail and cn.idx not in body for cn, _ in tests):
+                problems.append('no end-of-leaves test after the last node (too many leaves are not reported)')
+            for i, (cn, at_end) in enumerate(tests):
+                after_loop = cn.idx in tail and cn.idx not in body
+                end_reach = cfg.reachable_from([w for (w, lab) in cfg.succ[cn.idx] if lab is at_end])
+                more_reach = cfg.reachable_from([w for (w, lab) in cfg.succ[cn.idx] if lab is (not at_end)])
+
+                def only_throws(reach):
+                    th = [x for x in reach if cfg.nodes[x].kind == 'throw' and
+                          thrown_type(cfg.nodes[x].ast) == 'value_error']
+                    return bool(th) and cfg.exit.idx not in reach
+                if after_loop:
+                    if not only_throws(more_reach):
+                        problems.append('after the last node, leaves that are left over do not raise ValueError')
+                    if cfg.exit.idx not in end_reach:
+                        problems.append('after the last node, an exhausted leaf iterator does not return the result')
+                else:
+                    if not only_throws(end_reach):
+                        problems.append('in the leaf arm, an exhausted leaf iterator does not raise ValueError')
+                    if cfg.exit.idx not in more_reach:
+                        problems.append('in the leaf arm, a remaining leaf cannot be consumed')
+            n += 1
+            ctx.check('%s/leaf-count' % short(f), not problems,
+                      '%s: too few leaves raise ValueError in the leaf arm, too many after the last node' % inst(f),
+                      '%s: %s' % (inst(f), '; '.join(problems)), f.loc)
+    ctx.analysed['leaf_count_checks'] = n
